@@ -169,7 +169,9 @@ class _TimePatternHelper:
             if pattern_character == "f":
                 builder._add_format_fraction(count, max_count, getter)
             else:
-                builder._add_format_fraction_truncate(count, max_count, getter)
+                # A bare "F" doesn't own the text before it: a period there comes from a literal or a culture's
+                # separator, which parsing still requires, so it must survive an entirely truncated fraction.
+                builder._add_format_fraction_truncate(count, max_count, getter, keep_preceding_point=True)
 
         return fraction_handler
 
